@@ -71,52 +71,6 @@ fn byte_len_complete() {
     kani::cover!(n == 0);
 }
 
-fn any_slot() -> XRef {
-    if kani::any() { XRef::Invalid } else { any_xref() }
-}
-fn gen_of(e: &XRef) -> u64 {
-    match *e { XRef::Free { gen_nr, .. } | XRef::Raw { gen_nr, .. } => gen_nr, _ => 0 }
-}
-
-/// Second opinion / counterexample source for `add_entries_from/newest_wins` on the real function:
-/// a 3-slot table whose slots are arbitrary Invalid|Free|Raw|Stream, one older section of 2 arbitrary entries at
-/// first_id in 0..=2, generations of the older section not above the merged direct/free ones (well-formed history).
-/// Expected: slot i takes the section's entry iff it was Invalid and is mentioned (merge1).
-/// BOUNDED: 3 slots, 2 entries. The Err path (Promised slot) is excluded by construction; the result is forgotten
-/// so that no PdfError drop glue is reached.
-#[kani::proof]
-#[kani::unwind(5)]
-fn add_entries_newest_wins_small() {
-    let mut t = XRefTable::new(2);
-    let old: [XRef; 3] = [any_slot(), any_slot(), any_slot()];
-    t.entries[0] = old[0];
-    t.entries[1] = old[1];
-    t.entries[2] = old[2];
-    let first_id: u32 = kani::any();
-    kani::assume(first_id <= 2);
-    let sec_entries: [XRef; 2] = [any_xref(), any_xref()];
-    let mut k = 0;
-    while k < 2 {
-        let i = first_id as usize + k;
-        if i < 3 {
-            if let XRef::Raw { gen_nr, .. } | XRef::Free { gen_nr, .. } = old[i] {
-                kani::assume(gen_of(&sec_entries[k]) <= gen_nr);
-            }
-        }
-        k += 1;
-    }
-    let sec = XRefSection { first_id, entries: vec![sec_entries[0], sec_entries[1]] };
-    let r = t.add_entries_from(sec);
-    let ok = r.is_ok();
-    std::mem::forget(r);
-    assert!(ok);
-    assert!(t.entries.len() == 3);
-    let mut i = 0;
-    while i < 3 {
-        let mentioned = i >= first_id as usize && i < first_id as usize + 2;
-        let expect = if matches!(old[i], XRef::Invalid) && mentioned { sec_entries[i - first_id as usize] } else { old[i] };
-        assert!(same(&t.entries[i], &expect));
-        i += 1;
-    }
-    kani::cover!(matches!(old[1], XRef::Stream { .. }) && first_id == 0);
-}
+// NOTE: a bounded second-opinion harness on XRefTable::add_entries_from itself (3 slots, 2 entries) was tried and
+// dropped: CBMC needed > 25 min and 21 GB (Vec<XRef> + the PdfError-returning path). The native tests in
+// findings/*_repro.rs are the counterexample for `newest_wins`.
